@@ -95,14 +95,14 @@ def run_inventory(ctx, rule, entries, scope_note, cfg="default"):
         s = r["site"]
         if r["verdict"] == "open":
             path = " -> ".join(x.split("::")[-1] if len(x) > 60 else x for x in r["path"][-4:])
-            ctx.ob(rule, s["id"], False, "%s [%s]; reached via %s" % (r["how"], s["kind"], path), r["func"], r["at"], cfg=cfg)
+            ctx.ob(rule, s["id"], False, "%s [%s]; reached via %s" % (r["how"], s["kind"], path), panics.stable_key(p, r["func"]), r["at"], cfg=cfg)
         elif r["verdict"] == "table":
             used.add(r["key"])
-            ctx.ob(rule, s["id"], True, r["how"], r["func"], r["at"], cfg=cfg)
+            ctx.ob(rule, s["id"], True, r["how"], panics.stable_key(p, r["func"]), r["at"], cfg=cfg)
         elif r["verdict"] == "auto":
-            ctx.ob(rule, s["id"], True, r["how"], r["func"], r["at"], cfg=cfg)
+            ctx.ob(rule, s["id"], True, r["how"], panics.stable_key(p, r["func"]), r["at"], cfg=cfg)
         else:
-            ctx.ob(rule, s["id"], True, r["how"], r["func"], r["at"], nontrivial=False, cfg=cfg)
+            ctx.ob(rule, s["id"], True, r["how"], panics.stable_key(p, r["func"]), r["at"], nontrivial=False, cfg=cfg)
     ctx.note("%s [%s]: %d entry points, %d functions in scope, sites: %s (%s)" % (rule, cfg, len(entries), len(keys), counts, scope_note))
     return recs, keys, counts
 
